@@ -1470,8 +1470,8 @@ V(id='c09-from-float-cache', prop='C09', file='mpmath/libmp/libmpf.py',
           "    if prec >= 53 and x in float_cache:\n        return float_cache[x]\n    v = from_man_exp(int(m*(1<<53)), e-53, prec, rnd)\n    if len(float_cache) < 1000:\n        float_cache[x] = v\n    return v\n\ndef from_npfloat")],
   expect='fire:V-R5:from_float')
 V(id='c35-identify-zip-keys-values', prop='C35', file='mpmath/identification.py',
-  old="            constants = [(ctx.mpf(v), name) for (name, v) in sorted(constants.items())]",
-  new="            names = sorted(constants)\n            constants = [(ctx.mpf(v), name) for (name, v) in zip(names, constants.values())]",
+  old="            constants = [(ctx.mpf(v), _operand(name)) for (name, v) in sorted(constants.items())]",
+  new="            names = sorted(constants)\n            constants = [(ctx.mpf(v), _operand(name)) for (name, v) in zip(names, constants.values())]",
   expect='fire:Q-R4:identify')
 V(id='c16-le-touching-then-lt', prop='C16', file='mpmath/libmp/libmpi.py',
   old="def mpi_le(s, t):\n    sa, sb = s\n    ta, tb = t\n    if mpf_le(sb, ta): return True\n    if mpf_gt(sa, tb): return False\n    return None",
@@ -3065,3 +3065,14 @@ V(id='c29-rank-tolerance-floor-zero', prop='C29', file='mpmath/calculus/polynomi
   old="> 8*tol*max(1, abs(vals[b])))", new="> 8*tol*max(0, abs(vals[b])))", expect='fire:R-P3:ranks')
 V(id='c29-benign-rank-tolerance-absolute', prop='C29', file='mpmath/calculus/polynomials.py',
   old="> 8*tol*max(1, abs(vals[b])))", new="> 16*tol*max(abs(vals[a]), 1, abs(vals[b])))", expect='silent')
+
+# ---- C35 Q-R14 / Q-R15 (fourth hunt; fixes 2a37a65, 2e267a9) ----
+V(id='c35-dict-names-not-operands', prop='C35', file='mpmath/identification.py',
+  old="constants = [(ctx.mpf(v), _operand(name)) for (name, v) in sorted(constants.items())]", new="constants = [(ctx.mpf(v), name) for (name, v) in sorted(constants.items())]",
+  expect='fire:Q-R14:identify')
+V(id='c35-list-formulas-not-operands', prop='C35', file='mpmath/identification.py',
+  old="constants = [(eval(p, namespace), _operand(p)) for p in constants]", new="constants = [(eval(p, namespace), p) for p in constants]",
+  expect='fire:Q-R14:identify')
+V(id='c35-quadratic-pslq-can-raise', prop='C35', file='mpmath/identification.py',
+  old="                try:\n                    q = ctx.pslq([ctx.one, t, t**2], tol, M)\n                except ValueError:\n                    # (t**2 lies below the resolution of pslq)\n                    q = None\n",
+  new="                q = ctx.pslq([ctx.one, t, t**2], tol, M)\n", expect='fire:Q-R15:identify')
